@@ -112,7 +112,7 @@ def gen_c13(tier, rng):
     pairs = [(a, b) for a in vals for b in vals]
     rng.shuffle(pairs)
     for a, b in pairs[: 1500 if tier == 'thorough' else 250]:
-        op = rng.choice(['n_add', 'n_sub', 'n_mul', 's9fp mul', 's9fp add', 's9fp sub'])
+        op = rng.choice(['n_add', 'n_sub', 'n_mul', 's9fp mul', 's9fp add', 's9fp sub', 's9u256 add', 's9u256 sub', 's9u256 mul', 's9u256 cmp'])
         yield ('modN/Fp-boundary', '%s %s %s' % (op, H(a), H(b)), None)
     for a in vals[:: 1 if tier == 'thorough' else 3]:
         for op in ('neg', 'dbl', 'tri', 'div2', 'sqr', 'to_mont', 'from_mont'):
